@@ -7,7 +7,7 @@ Require Import Floats.SpecFloat.
 Require Import ZArith Bool List Reals.
 From Flocq Require Import Core BinarySingleNaN.
 From Dasp Require Import Base.Res Base.Float Dsp.MInt Dsp.EnvNum Dsp.EnvNumR Dsp.Peak Dsp.Envelope
-  Dsp.PeakProofs Dsp.EnvelopeProofs Dsp.EnvelopeIEEE Dsp.EnvelopeExamples.
+  Dsp.PeakProofs Dsp.EnvelopeProofs Dsp.EnvelopeIEEE Dsp.EnvelopeIntProofs Dsp.EnvelopeExamples.
 Import ListNotations.
 
 (* ---------------- rectifiers ---------------- *)
@@ -193,6 +193,47 @@ Proof.
   vm_compute. repeat split.
 Qed.
 Print Assumptions c19_between_ieee_exact_refuted.
+
+(* ---------------- integer frame formats (i8 i16 u8 u16: Float = f32, Signed of the same width) ----------------
+   The update as executed (integer offset ops + binary32 scaling with truncation): outside the
+   known class K2 and with envelope and detected value on the same side of equilibrium it does not
+   panic and lies EXACTLY between the previous envelope and the detected value (no overshoot at all
+   in integer formats: rounding to nearest is monotone and the cast truncates toward zero). *)
+Theorem c19_int_step : forall (f : ifmt) (ga gr : f32) (l d : Z),
+  is_envfmt f = true ->
+  is_finite ga = true -> is_finite gr = true -> (0 <= B2R ga <= 1)%R -> (0 <= B2R gr <= 1)%R ->
+  in_range f l -> in_range f d ->
+  in_range (signed_fmt f) (- (d - equil f)) ->
+  in_range (signed_fmt f) (l - d) ->
+  let g := if (l <? d)%Z then ga else gr in
+  let m := scale_amp (signed_fmt f) (l - d) g in
+  env_step_i f ga gr l d = Ok (d + m)%Z /\
+  ((d <= l)%Z -> (d <= d + m <= l)%Z) /\ ((l <= d)%Z -> (l <= d + m <= d)%Z) /\
+  (Z.min l d <= d + m <= Z.max l d)%Z.
+Proof. exact env_step_i_ok. Qed.
+Print Assumptions c19_int_step.
+
+(* Main theorem for integer formats, quantified over the complement of the known class K2:
+   every history of in-range frames with no sample at the minimum amplitude (for the full-wave and
+   negative-half-wave detectors; the positive-half-wave detector needs no exclusion), every channel
+   count, every pair of gains in [0,1], from every state on the rectifier's side of equilibrium
+   (in particular Detector::new): no panic, and every output is channel-wise between the previous
+   envelope and the detected value. *)
+Theorem c19_int_run : forall (f : ifmt) (which : Z) (frames : list (list Z)) (dt : idetector),
+  (which = 0 \/ which = 1 \/ which = 2)%Z -> is_envfmt (peak_out_fmt f which) = true ->
+  is_finite (iattack dt) = true -> is_finite (irelease dt) = true ->
+  (0 <= B2R (iattack dt) <= 1)%R -> (0 <= B2R (irelease dt) <= 1)%R ->
+  Forall (on_side (peak_out_fmt f which) which) (ilast dt) ->
+  Forall (fun fr => Forall (in_range f) fr /\ length fr = length (ilast dt)) frames ->
+  ~ KnownClass_K2 f which frames ->
+  exists outs, idet_run f which dt frames = Ok outs /\ run_between f which (ilast dt) frames outs.
+Proof. exact idet_run_ok. Qed.
+Print Assumptions c19_int_run.
+
+Theorem c19_int_new_side : forall (of : ifmt) (which : Z) (nch : nat) (ga gr : f32), is_envfmt of = true ->
+  Forall (on_side of which) (ilast (idet_new of nch ga gr)).
+Proof. exact idet_new_side. Qed.
+Print Assumptions c19_int_new_side.
 
 (* ---------------- known class K2 (integer format, an input at the minimum amplitude) ---------------- *)
 Theorem c19_k2_refuted : exists (f : ifmt) (which : Z) (fr : list Z) (g : f32),
